@@ -9,6 +9,25 @@ def ap_crc32(data, crc=0):
     return crc
 
 
+_TAB = []
+for _i in range(256):
+    _c = _i
+    for _ in range(8):
+        _c = (_c >> 1) ^ 0xEDB88320 if _c & 1 else _c >> 1
+    _TAB.append(_c)
+_TOP = {t >> 24: i for i, t in enumerate(_TAB)}
+
+
+def forge_tail(prefix, target):
+    """four bytes X with ap_crc32(prefix + X) == target (the register is run backwards through four zero bytes)"""
+    s = ap_crc32(prefix)
+    u = target
+    for _ in range(4):
+        idx = _TOP[u >> 24]
+        u = (((u ^ _TAB[idx]) << 8) & 0xFFFFFFFF) | idx
+    return (u ^ s).to_bytes(4, "little")
+
+
 def block(btype, body):
     body = bytes(body)
     assert len(body) <= 65535
